@@ -294,8 +294,8 @@ func oneBurst(c C09Case, rep int) (sig, msg string, nt bool) {
 		case "update":
 			if c.Kind == "same-session-releases" {
 				// an update ordered after the release is rejected; one ordered before it is accepted
-				if r.code != 200 && r.code != 404 {
-					return "update-status-beside-release", fmt.Sprintf("update concurrent with releases of its session answered %d, want 200 or 404", r.code), nt
+				if r.code != 200 && (r.code < 400 || r.code >= 500) {
+					return "update-status-beside-release", fmt.Sprintf("update concurrent with releases of its session answered %d, want 200 or a 4xx rejection", r.code), nt
 				}
 				if r.code == 200 {
 					usage[r.supi] += r.usedOnline
@@ -310,8 +310,8 @@ func oneBurst(c C09Case, rep int) (sig, msg string, nt bool) {
 			if r.code == 204 {
 				released[r.supi+"|"+r.sessRef]++
 				usage[r.supi] += r.usedOnline
-			} else if r.code != 404 {
-				return "release-status-concurrent", fmt.Sprintf("one of several concurrent releases of a session answered %d, want 204 once and 404 otherwise", r.code), nt
+			} else if r.code < 400 || r.code >= 500 {
+				return "release-status-concurrent", fmt.Sprintf("one of several concurrent releases of a session answered %d, want 204 once and a 4xx rejection otherwise", r.code), nt
 			}
 		case "create":
 			if r.code != 201 {
